@@ -792,16 +792,28 @@ def read_cache_entry(
     else:
         extended_flags = 0
 
+    terminator_read = 0
     if version >= 4:
         # Version 4: paths are always compressed (name_len should be 0)
         name, _consumed = _decompress_path_from_stream(f, previous_path)
     else:
         # Versions < 4: regular name reading
         name = f.read(flags & FLAG_NAMEMASK)
+        if flags & FLAG_NAMEMASK == FLAG_NAMEMASK:
+            # The length field is saturated: the name is at least 0xFFF
+            # bytes long and ends at the first NUL.
+            while True:
+                char = f.read(1)
+                if not char:
+                    raise ValueError("Unexpected end of file while reading name")
+                if char == b"\0":
+                    terminator_read = 1
+                    break
+                name += char
 
     # Padding:
     if version < 4:
-        real_size = (f.tell() - beginoffset + 8) & ~7
+        real_size = (f.tell() - terminator_read - beginoffset + 8) & ~7
         f.read((beginoffset + real_size) - f.tell())
 
     return SerializedIndexEntry(
@@ -840,7 +852,7 @@ def write_cache_entry(
         # Version 4: use compression but set name_len to actual filename length
         # This matches how C Git implements index v4 flags
         compressed_path = _compress_path(entry.name, previous_path)
-    flags = len(entry.name) | (entry.flags & ~FLAG_NAMEMASK)
+    flags = min(len(entry.name), FLAG_NAMEMASK) | (entry.flags & ~FLAG_NAMEMASK)
 
     if entry.extended_flags:
         flags |= FLAG_EXTENDED
